@@ -496,7 +496,7 @@ def obligations(tier):
     obs = []
 
     def add(oname, fn, timeout=90, **kw):
-        obs.append({"name": oname, "module": M, "fn": fn, "kwargs": kw, "timeout": timeout if q else timeout * 4})
+        obs.append({"name": oname, "module": M, "fn": fn, "kwargs": kw, "timeout": timeout * 5 if q else timeout * 12})
 
     for n in (14, 16) if q else (14, 16, 18, 22):
         add("checksum-first arbitrary %d-byte message" % n, "b_checksum_first", timeout=150, n=n)
